@@ -1137,3 +1137,68 @@ def _(repo):
             f"{comments}\nDefinition gen_functions_analysed : nat := {nfun}.\n"
             f"(* (index, line) of every store / mutating call / global declaration rooted at an argument *)\n"
             f"Definition gen_argument_writes : list (nat * nat) := [{body}].")
+
+
+# ---------------------------------------------------------------- border facets, sampling calls (C08)
+@anchor("G_datagen", "facet_table")
+def _(repo):
+    f = find_func(parse(repo, DG), "sample_in_omega_border_domain", "CubicMeshPDEStatio")
+    b1 = _branch(f, "self.dim == 1")
+    r1 = ast.unparse(one(returns(wrap(b1)), "1-D return"))
+    x0 = ast.unparse(one(assigns(wrap(b1), "xmin"), "xmin")); x1 = ast.unparse(one(assigns(wrap(b1), "xmax"), "xmax"))
+    if r1 != "jnp.array([xmin, xmax]).astype(float)" or (x0, x1) != ("self.min_pts[0]", "self.max_pts[0]"):
+        raise Untranslatable("1-D border changed")
+    b2 = _branch(f, "self.dim == 2")
+    ret = one(returns(wrap(b2)), "2-D return")
+    if not (ast.unparse(ret.func) == "jnp.stack" and ast.unparse(kwarg(ret, "axis")) == "-1"):
+        raise Untranslatable("facets are not stacked on the last axis")
+    rows = []
+    for nm in [ast.unparse(e) for e in ret.args[0].elts]:
+        v = one(assigns(wrap(b2), nm), nm)
+        if ast.unparse(v.func) != "jnp.hstack" or len(v.args[0].elts) != 2:
+            raise Untranslatable(nm + " is not an hstack of two columns")
+        desc = []
+        for col, e in enumerate(v.args[0].elts):
+            u = ast.unparse(e)
+            import re as _re
+            m = _re.fullmatch(r"self\.(min|max)_pts\[(\d)\] \* jnp\.ones\(\(facet_n, 1\)\)", u)
+            m2 = _re.fullmatch(r"jax\.random\.uniform\(keys\[\d\], \(facet_n, 1\), minval=self\.min_pts\[(\d)\], maxval=self\.max_pts\[(\d)\]\)", u)
+            if m:
+                desc.append(("pin", col, m.group(1) == "max", int(m.group(2))))
+            elif m2 and m2.group(1) == m2.group(2):
+                desc.append(("free", col, int(m2.group(1))))
+            else:
+                raise Untranslatable("unknown facet column " + u)
+        pin = one([d for d in desc if d[0] == "pin"], "pinned column"); free = one([d for d in desc if d[0] == "free"], "free column")
+        # (pinned column, pinned to the max bound?, dimension whose bound is used, free column, dimension of its range)
+        rows.append(f"({pin[1]}%nat, {'true' if pin[2] else 'false'}, {pin[3]}%nat, {free[1]}%nat, {free[2]}%nat)")
+    return ("(* 1-D border: [min_pts[0], max_pts[0]] *)\nDefinition gen_border_1d_is_max : list bool := [false; true].\n"
+            "(* per facet, in stacking order: (pinned column, pinned to max?, bound's dimension, free column, dimension of the free range) *)\n"
+            f"Definition gen_facet_table : list (nat * bool * nat * nat * nat) := [{'; '.join(rows)}].")
+
+
+@anchor("G_datagen", "sampling_calls")
+def _(repo):
+    mod = parse(repo, DG)
+    ok = True
+    notes = []
+    for cls, fn in (("DataGeneratorODE", "sample_in_time_domain"), ("CubicMeshPDENonStatio", "sample_in_time_domain")):
+        f = find_func(mod, fn, cls)
+        c = one(calls_to(f, "jax.random.uniform"), "uniform")
+        good = ast.unparse(kwarg(c, "minval")) == "self.tmin" and ast.unparse(kwarg(c, "maxval")) == "self.tmax"
+        ok = ok and good; notes.append(f"{cls}.{fn}:{good}")
+    f = find_func(mod, "sample_in_omega_domain", "CubicMeshPDEStatio")
+    cs = calls_to(f, "jax.random.uniform")
+    good = (len(cs) == 2 and ast.unparse(kwarg(cs[0], "minval")) == "xmin" and ast.unparse(kwarg(cs[0], "maxval")) == "xmax"
+            and ast.unparse(kwarg(cs[1], "minval")) == "self.min_pts[i]" and ast.unparse(kwarg(cs[1], "maxval")) == "self.max_pts[i]")
+    ok = ok and good; notes.append(f"omega:{good}")
+    # grids: a + step * arange(count), step = (b - a) / count
+    grids = []
+    for cls, fn in (("DataGeneratorODE", "generate_time_data"), ("CubicMeshPDENonStatio", "generate_time_data")):
+        src = ast.unparse(find_func(mod, fn, cls))
+        grids.append("partial_times = (self.tmax - self.tmin) / self.nt" in src and "self.tmin + partial_times * jnp.arange(self.nt)" in src)
+    src = ast.unparse(find_func(mod, "generate_data", "CubicMeshPDEStatio"))
+    grids.append("partial = (xmax - xmin) / self.n" in src and "(xmin + partial * jnp.arange(self.n))[:, None]" in src)
+    grids.append("n_side = int(round(self.n ** (1 / self.dim)))" in src and "(self.max_pts[i] - self.min_pts[i]) / n_side" in src and "self.min_pts[i] + partials[i] * jnp.arange(n_side)" in src)
+    return (f"(* {notes}; grids {grids} *)\nDefinition gen_uniform_ranges_ok : bool := {'true' if ok else 'false'}.\n"
+            f"Definition gen_grid_formula_ok : bool := {'true' if all(grids) else 'false'}.")
